@@ -19,6 +19,14 @@ package rule
 //@ iface (Executor).Execute
 //@   logged exec
 
+// C18 / C06: what the rule set processor asks of the repository (ghost logs ars, urs, drs)
+//@ iface (Repository).AddRuleSet
+//@   logged ars
+//@ iface (Repository).UpdateRuleSet
+//@   logged urs
+//@ iface (Repository).DeleteRuleSet
+//@   logged drs
+
 // C18: what the providers tell the rule set processor is recorded in ghost logs
 //@ iface (SetProcessor).OnCreated
 //@   logged onc
@@ -39,9 +47,11 @@ package rule
 //@ iface (Rule).Routes
 //@   props C06 C07
 //@   pure
+//@ spec allowsBt(r Rule) bool
 //@ iface (Rule).AllowsBacktracking
 //@   props C06 C07
 //@   pure
+//@   defines allowsBt(recv)
 //@ iface (Rule).SameAs
 //@   props C06 C07
 //@   pure
